@@ -484,7 +484,13 @@ func (h *hist) judge(k keySpec, tNs int64, ht *hit, sequential bool, retTick int
 	if retTick != 0 && r.CallTick > retTick {
 		out = append(out, viol{"C12/replay-before-store", fmt.Sprintf("body %q replayed before its store was called", id)})
 	}
-	if r.Judge && tNs > r.Exp {
+	// Absolute-epoch retry-after values are float64 seconds since 1970: at today's magnitude their
+	// resolution is 2.4e-7 s, so the instant is only defined to within a microsecond.
+	slackNs := int64(0)
+	if h.isThrottle() && h.cs.RAType == "absolute" {
+		slackNs = 1000
+	}
+	if r.Judge && tNs > r.Exp+slackNs {
 		kind := "cache-ttl"
 		if h.isThrottle() {
 			kind = "throttle-" + h.cs.RAType
@@ -735,6 +741,14 @@ func (rn *runner) runCase(idx int, cs *caseSpec) int {
 			phase := "sequential"
 			if afterConc {
 				phase = "concurrent-stores"
+				for j := i - 1; j >= 0; j-- {
+					if cs.Ops[j].K == "conc" {
+						if !cs.Ops[j].Lockstep {
+							rn.v.Count("free_running_rounds_that_exceeded_the_size", 1)
+						}
+						break
+					}
+				}
 			}
 			rn.violate(cs, idx, []viol{{"C12/size-exceeded/" + cs.Kind + "-" + phase,
 				fmt.Sprintf("%d entries with %d body bytes in total are served at a quiescent sweep; configured maximum is %.0f bytes", served, total, max)}}, i)
@@ -1053,15 +1067,10 @@ var ttlChoices = []int64{512, 256, 1025, 2560, 1, 3}
 func genCache(r *sim.Rand, idx int) caseSpec {
 	cs := caseSpec{Kind: "cache", Policy: policyOf(r), FracNs: fracOf(r), MaxMB: 64}
 	k0 := keySpec{Method: "GET", URL: "a.com/v1/u/7", Params: map[string]string{"id": "7", "org": "x", "ver": "1"}}
-	if r.Chance(1, 12) {
-		// L2 only: hostile values that contain the characters the key derivation joins with
-		cs.Selected = []string{"p", "q"}
-		cs.Keys = []keySpec{
-			{Method: "GET", URL: "a.com/v1/u/7", Params: map[string]string{"p": "1.q:2", "q": "3"}},
-			{Method: "GET", URL: "a.com/v1/u/7", Params: map[string]string{"p": "1", "q": "2.q:3"}},
-		}
-		cs.Diffs = []string{"selected-param-hostile"}
-	} else {
+	// (a probe with path-parameter VALUES containing the separator characters of the key derivation
+	// was dropped: the URL is part of the key and determines the path parameters, so two such
+	// requests cannot differ in their parameters while sharing the URL - unreachable input)
+	{
 		cs.Selected = sim.Pick(r, [][]string{{"id"}, {"id", "org"}, {"org"}, {}, {"id", "id"}})
 		cs.Keys = []keySpec{k0}
 		variants := []string{"method", "url", "id", "org", "ver"}
@@ -1386,7 +1395,7 @@ func main() {
 		runReplay(rn)
 		os.Exit(v.Write())
 	}
-	total := args.Pick(1600, 48000)
+	total := args.Pick(1600, 24000)
 	lo, hi := args.Share(total)
 	for i := lo; i < hi && !rn.dead; i++ {
 		cs := genCase(args.CaseRand(i), i)
